@@ -27,7 +27,7 @@ from irispie.series import arip as ARIP
 from .common import Ctx, err_kind
 
 DRIVERS = ["C12"]
-EXTRA_PROPS = ['BridgeC12', 'C12Ext']   # refinement bridge from the executable QMat model to the matrix-level theorems (audited with this check)
+EXTRA_PROPS = ['BridgeC12', 'C12Ext', 'C12Arip']   # refinement bridge from the executable QMat model to the matrix-level theorems (audited with this check)
 LEVEL = "proof"
 MANIFEST = {
     "category": "proof",
@@ -35,10 +35,12 @@ MANIFEST = {
              "NaN patterns, no bound): regular->regular and daily->regular aggregation hand the method exactly the periods t with "
              "refrequent(t, to) = T, in calendar order (leap years and month lengths included; built on the C09 calendar theorems); a missing "
              "member gives a missing value under mean/sum/prod, first/last return the first/last member, discard_missing is the method on the "
-             "non-missing sub-list, an empty group is missing, select is positional choice; trimming never changes the period-indexed map; "
+             "non-missing sub-list, an empty group is missing, select is positional choice of calendar positions applied BEFORE discarding "
+             "(group level for any group; full pipeline theorem for regular pairs with in-range positions; an out-of-range position is "
+             "rejected); the rejection branches (empty series, finer/coarser target, same frequency = no-op) are theorems too; trimming never changes the period-indexed map; "
              "disaggregate flat/first/middle/last puts the value of T at exactly the documented positions of T for regular targets (and provably "
              "misplaces them for DAILY targets: finding C12-a); aggregate mean|first|last|min|max after disaggregate flat, first after first and "
-             "last after last return the original series for every NaN pattern; arip: any solution of the bordered KKT system meets every "
+             "last after last return the original series for every NaN pattern (regular pairs, series with at least one observation); arip: any solution of the bordered KKT system meets every "
              "aggregation row and every target row exactly and minimises the autoregressive smoothness criterion ||K x - c||^2 among all feasible "
              "x, for every rho, c, sigma and aggregation vector (Mathlib matrices over an ordered field), the model's system being an instance; "
              "the unrepaired 0/1 multiplier columns are proved NOT to give the minimiser for 'first' (defect C12-b). The model is tied to the code "
@@ -56,7 +58,10 @@ MANIFEST = {
              "modelled over extended values (NaN, -inf, +inf, rationals; IEEE +, x, <) and proved to refine the rational model for every method; "
              "discard_missing removes NaN only (+-inf reach the method; a +inf member without -inf/NaN gives sum = mean = +inf); the documented "
              "spellings of the arip model (rate/multiplicative, diff/additive, mean/avg) resolve to the same form, sigma vector and aggregation "
-             "vector; tied by exact streams on _aggregate_within_data and the arip tables, every spelling also run end to end."),
+             "vector; tied by exact streams on _aggregate_within_data and the arip tables, every spelling also run end to end. The optimality theorem for the executable arip model (BridgeC12) holds for every "
+             "aggregation vector; Props/C12Arip shows its hypotheses met for first / last / custom weights by kernel evaluation and that the "
+             "unrepaired membership columns coincide with the KKT system for 'sum' and differ for 'first'. Not proved: series-level behaviour "
+             "with +-inf (oracle only), the daily pipeline with select, structural equality after daily aggregation."),
     "design": "7/C12",
     "note": ("IEEE rounding is outside the theorems: data are dyadic so that sums/products are exact, statistics.mean is compared with the "
              "correctly rounded exact mean; arip outputs are compared with tolerances (1e-8 relative) on generator-controlled instances. "
